@@ -1,9 +1,201 @@
-import Echse.Model.Exec
+/-
+  C13 — the executor routes the job's output as configured.
+
+  For the model of `prep_task` (Echse/Model/Exec.lean), every input `so se same mo me`
+  (OFILE set, EFILE set, both name the same file, MAIL-OUT, MAIL-ERR: all 2^5 combinations, of which
+  20 are distinct, `same_irrelevant`) and EVERY list of chunks the job writes:
+    * the file named by OFILE holds exactly the stdout bytes in order (`ofile_content`, `ofile_separate`), the file
+      named by EFILE exactly the stderr bytes (`efile_content`); one shared file holds all
+      chunks in write order (`shared_content`);
+    * the mail body holds exactly the chunks of the requested streams, in write order, each once
+      (`mail_content`), and is empty when no mail is requested;
+    * nothing is written anywhere else (`nothing_elsewhere`);
+    * the mail file is removed afterwards iff it is the temporary file, and there is a mail file iff
+      some mail flag is set (`tmp_removed_iff`);
+    * the plan for each of the 20 documented rows (`plan_table`).
+  Statements only; helper lemmas live in Echse/Lemmas/Exec.lean.
+  Sinks: 0 = /dev/null, 1 = the temporary file, 2 = the file named by OFILE, 3 = the file named by
+  EFILE when that is a different name.  A chunk is `(isStdout, bytes)`.
+-/
+import Echse.Lemmas.Exec
 namespace C13
 open Echse.Exec
 
-/-- smoke (general statements replace this): row 14 of the table (same file, mail stdout only) -/
+/-- the definitions used below are what their names say -/
+theorem proj_def (f : Chunk → Bool) (chunks : List Chunk) :
+    proj f chunks = ((chunks.filter f).map (·.2)).flatten := rfl
+theorem outB_def (chunks : List Chunk) : outB chunks = ((chunks.filter (·.1)).map (·.2)).flatten := rfl
+theorem errB_def (chunks : List Chunk) : errB chunks = ((chunks.filter (fun ch => !ch.1)).map (·.2)).flatten := rfl
+
+/-! ### 1. OFILE -/
+
+/-- OFILE set and not shared with EFILE: exactly the stdout bytes, in order -/
+theorem ofile_separate (so se same mo me : Bool) (chunks : List Chunk)
+    (hso : so = true) (hns : ¬ (se = true ∧ same = true)) :
+    content (prep (Cfg.mk' so se same mo me)) 2 chunks = outB chunks := by
+  rw [content_of_pointwise _ 2 _ (deliver_ofile so se same mo me)]
+  apply proj_congr
+  intro ch
+  subst hso
+  cases se <;> cases same <;> simp_all
+
+/-- OFILE and EFILE name the same file: every chunk of either stream, in write order (so each
+stream in its own order) -/
+theorem shared_content (so se same mo me : Bool) (chunks : List Chunk)
+    (hso : so = true) (hse : se = true) (hsame : same = true) :
+    content (prep (Cfg.mk' so se same mo me)) 2 chunks = (chunks.map (·.2)).flatten := by
+  rw [content_of_pointwise _ 2 _ (deliver_ofile so se same mo me), ← proj_true]
+  apply proj_congr
+  intro ch
+  subst hso hse hsame
+  simp
+
+/-- both cases of a set OFILE -/
+theorem ofile_content (so se same mo me : Bool) (chunks : List Chunk) :
+    (so = true → ¬ (se = true ∧ same = true) →
+      content (prep (Cfg.mk' so se same mo me)) 2 chunks = outB chunks) ∧
+    (so = true ∧ se = true ∧ same = true →
+      content (prep (Cfg.mk' so se same mo me)) 2 chunks = (chunks.map (·.2)).flatten) :=
+  ⟨ofile_separate so se same mo me chunks,
+   fun h => shared_content so se same mo me chunks h.1 h.2.1 h.2.2⟩
+
+/-! ### 2. EFILE -/
+
+/-- EFILE set and not shared with OFILE: exactly the stderr bytes, in order -/
+theorem efile_content (so se same mo me : Bool) (chunks : List Chunk)
+    (hse : se = true) (hns : ¬ (so = true ∧ same = true)) :
+    content (prep (Cfg.mk' so se same mo me)) 3 chunks = errB chunks := by
+  rw [content_of_pointwise _ 3 _ (deliver_efile so se same mo me)]
+  apply proj_congr
+  intro ch
+  subst hse
+  cases so <;> cases same <;> simp_all
+
+/-! ### 3. mail -/
+
+/-- the mail body: the chunks of the requested streams, in write order, nothing duplicated,
+nothing else; for every input -/
+theorem mail_content (so se same mo me : Bool) (chunks : List Chunk) :
+    mailBody (prep (Cfg.mk' so se same mo me)) chunks =
+      ((chunks.filter fun ch => if ch.1 then mo else me).map (·.2)).flatten :=
+  mailBody_of_pointwise _ _ (deliver_mail so se same mo me) chunks
+
+theorem mail_none (so se same : Bool) (chunks : List Chunk) :
+    mailBody (prep (Cfg.mk' so se same false false)) chunks = [] := by
+  rw [mail_content]; simp
+
+theorem mail_out_only (so se same : Bool) (chunks : List Chunk) :
+    mailBody (prep (Cfg.mk' so se same true false)) chunks = outB chunks := by
+  rw [mail_content]; apply proj_congr; intro ch; cases ch.1 <;> rfl
+
+theorem mail_err_only (so se same : Bool) (chunks : List Chunk) :
+    mailBody (prep (Cfg.mk' so se same false true)) chunks = errB chunks := by
+  rw [mail_content]; apply proj_congr; intro ch; cases ch.1 <;> rfl
+
+theorem mail_both (so se same : Bool) (chunks : List Chunk) :
+    mailBody (prep (Cfg.mk' so se same true true)) chunks = (chunks.map (·.2)).flatten := by
+  rw [mail_content]
+  exact (proj_congr _ _ (fun ch => by cases ch.1 <;> rfl) chunks).trans (proj_true chunks)
+
+/-! ### 4. nothing elsewhere -/
+
+theorem nothing_elsewhere (so se same mo me : Bool) (chunks : List Chunk) :
+    (so = false → content (prep (Cfg.mk' so se same mo me)) 2 chunks = []) ∧
+    (se = false ∨ (so = true ∧ same = true) → content (prep (Cfg.mk' so se same mo me)) 3 chunks = []) ∧
+    content (prep (Cfg.mk' so se same mo me)) 0 chunks = [] ∧
+    (∀ k, 4 ≤ k → content (prep (Cfg.mk' so se same mo me)) k chunks = []) := by
+  refine ⟨?_, ?_, ?_, ?_⟩
+  · intro h
+    apply content_nil_of_pointwise
+    intro ch; rw [deliver_ofile, h]; rfl
+  · intro h
+    apply content_nil_of_pointwise
+    intro ch; rw [deliver_efile]
+    rcases h with h | ⟨h1, h2⟩
+    · rw [h]; rfl
+    · rw [h1, h2]; cases se <;> rfl
+  · exact content_nil_of_pointwise _ _ (deliver_nul _) chunks
+  · intro k hk
+    exact content_nil_of_pointwise _ _ (deliver_other so se same mo me k hk) chunks
+
+/-! ### 5. the temporary file -/
+
+theorem tmp_removed_iff (so se same mo me : Bool) :
+    ((prep (Cfg.mk' so se same mo me)).mrm = true ↔ (prep (Cfg.mk' so se same mo me)).mfn = some tmp) ∧
+    ((prep (Cfg.mk' so se same mo me)).mfn = none ↔ (mo = false ∧ me = false)) := by
+  cases so <;> cases se <;> cases same <;> cases mo <;> cases me <;> decide
+
+/-- the temporary file is only ever written when some mail flag is set -/
+theorem tmp_untouched_without_mail (so se same : Bool) (chunks : List Chunk) :
+    content (prep (Cfg.mk' so se same false false)) tmp chunks = [] :=
+  content_nil_of_pointwise _ _ (deliver_tmp_nomail so se same) chunks
+
+theorem tmp_written_only_for_mail (so se same mo me : Bool) (chunks : List Chunk)
+    (h : content (prep (Cfg.mk' so se same mo me)) tmp chunks ≠ []) : mo = true ∨ me = true := by
+  cases mo <;> cases me <;> simp_all [tmp_untouched_without_mail]
+
+/-- when the mail file is the temporary file, its contents are the mail body -/
+theorem tmp_is_mail (so se same mo me : Bool) (chunks : List Chunk)
+    (h : (prep (Cfg.mk' so se same mo me)).mfn = some tmp) :
+    content (prep (Cfg.mk' so se same mo me)) tmp chunks =
+      ((chunks.filter fun ch => if ch.1 then mo else me).map (·.2)).flatten := by
+  rw [← mail_content so se same mo me chunks, mailBody, h]
+
+/-! ### 6. the documented table -/
+
+/-- "same name" only matters when both names are given: the 2^5 inputs are 20 configurations -/
+theorem same_irrelevant (so se mo me : Bool) (h : ¬ (so = true ∧ se = true)) :
+    Cfg.mk' so se true mo me = Cfg.mk' so se false mo me := by
+  cases so <;> cases se <;> simp_all [Cfg.mk']
+
+/-- the file named by OFILE (`F`, `F1` in the table of echsx.c) -/
+abbrev F1 : Sink := 2
+/-- the file named by EFILE when it is another name (`F2`) -/
+abbrev F2 : Sink := 3
+/-- the five OFILE/EFILE situations of the table -/
+abbrev cfg00 := Cfg.mk' false false false
+abbrev cfg0F := Cfg.mk' false true false
+abbrev cfgF0 := Cfg.mk' true false false
+abbrev cfgFF := Cfg.mk' true true true
+abbrev cfgF1F2 := Cfg.mk' true true false
+
+/-- the plan for each of the 20 rows of the table in `prep_task` (fields not mentioned: `none` /
+`false`; `piped`: stdout and stderr are pipes pumped into `mfd` and then the tee descriptor) -/
+theorem plan_table :
+    --         Mo    Me
+    prep (cfg00 true  true ) = { ofd := some tmp, efd := some tmp, mfd := some tmp, mfn := some tmp, mrm := true } ∧   -- 1
+    prep (cfg00 true  false) = { ofd := some tmp, efd := some nul, mfd := some tmp, mfn := some tmp, mrm := true } ∧   -- 2
+    prep (cfg00 false true ) = { ofd := some nul, efd := some tmp, mfd := some tmp, mfn := some tmp, mrm := true } ∧   -- 3
+    prep (cfg00 false false) = { ofd := some nul, efd := some nul } ∧                                                 -- 4
+    prep (cfg0F true  true ) = { piped := true, mfd := some tmp, teee := some F2, mfn := some tmp, mrm := true } ∧     -- 5
+    prep (cfg0F true  false) = { ofd := some tmp, efd := some F2, mfd := some tmp, mfn := some tmp, mrm := true } ∧    -- 6
+    prep (cfg0F false true ) = { ofd := some nul, efd := some F2, mfd := some F2, mfn := some F2 } ∧                   -- 7
+    prep (cfg0F false false) = { ofd := some nul, efd := some F2 } ∧                                                  -- 8
+    prep (cfgF0 true  true ) = { piped := true, mfd := some tmp, teeo := some F1, mfn := some tmp, mrm := true } ∧     -- 9
+    prep (cfgF0 true  false) = { ofd := some F1, efd := some nul, mfd := some F1, mfn := some F1 } ∧                   -- 10
+    prep (cfgF0 false true ) = { ofd := some F1, efd := some tmp, mfd := some tmp, mfn := some tmp, mrm := true } ∧    -- 11
+    prep (cfgF0 false false) = { ofd := some F1, efd := some nul } ∧                                                  -- 12
+    prep (cfgFF true  true ) = { ofd := some F1, efd := some F1, mfd := some F1, mfn := some F1 } ∧                    -- 13
+    prep (cfgFF true  false) = { piped := true, mfd := some F1, teeo := some tmp, mfn := some tmp, mrm := true } ∧     -- 14
+    prep (cfgFF false true ) = { piped := true, mfd := some F1, teee := some tmp, mfn := some tmp, mrm := true } ∧     -- 15
+    prep (cfgFF false false) = { ofd := some F1, efd := some F1 } ∧                                                   -- 16
+    prep (cfgF1F2 true  true ) = { piped := true, mfd := some tmp, teeo := some F1, teee := some F2, mfn := some tmp, mrm := true } ∧  -- 17
+    prep (cfgF1F2 true  false) = { ofd := some F1, efd := some F2, mfd := some F1, mfn := some F1 } ∧                  -- 18
+    prep (cfgF1F2 false true ) = { ofd := some F1, efd := some F2, mfd := some F2, mfn := some F2 } ∧                  -- 19
+    prep (cfgF1F2 false false) = { ofd := some F1, efd := some F2 } := by                                             -- 20
+  decide
+
+-- concrete instances
+/-- row 14 of the table (same file, mail stdout only); name referenced by evidence/C13.json -/
 theorem row14_mail_is_stdout :
     mailBody (prep (Cfg.mk' true true true true false)) [(true, [1, 2]), (false, [9]), (true, [3])] = [1, 2, 3] := by decide
+example : content (prep (Cfg.mk' true true true true false)) 2 [(true, [1, 2]), (false, [9]), (true, [3])] = [1, 2, 9, 3] := by
+  decide
+example : content (prep (Cfg.mk' true true false true true)) 3 [(true, [1, 2]), (false, [9]), (true, [3]), (false, [8])] = [9, 8] := by
+  decide
+example : mailBody (prep (Cfg.mk' true true false true true)) [(true, [1, 2]), (false, [9]), (true, [3]), (false, [8])]
+    = [1, 2, 9, 3, 8] := by decide
+example : outB [(true, [1, 2]), (false, [9]), (true, [3])] = [1, 2, 3] ∧ errB [(true, [1, 2]), (false, [9]), (true, [3])] = [9] := by
+  decide
 
 end C13
